@@ -20,6 +20,17 @@ def sites(params, values, path=()):
         if p["pk"] in ("const", "physconst", "reserved", "matchreq"):
             yield (path + (name,), "nonsettable", {"p": p})
             continue
+        if p["pk"] == "tablestruct" and name in values:
+            tk = [q for q in params if q["pk"] == "tablekey" and q["name"] == p["key"]][0]
+            val = values[name]
+            yield (path + (name,), "tstruct", {"p": p, "tk": tk})
+            if isinstance(val, (list, tuple)) and len(val) == 2:
+                # an explicit value for the TABLE-KEY parameter next to the TABLE-STRUCT's (row, content) pair
+                yield (path + (tk["name"],), "tablekey", {"p": p, "tk": tk, "chosen": val[0]})
+                row = [r for r in tk["table"]["rows"] if r["name"] == val[0]]
+                if row and row[0].get("st") is not None and isinstance(val[1], dict):
+                    yield from sites(row[0]["st"]["params"], val[1], path + (name, 1))
+            continue
         if p["pk"] != "value" or name not in values:
             continue
         yield from dop_sites(p["dop"], values[name], path + (name,))
@@ -174,6 +185,23 @@ def mutation(draw, kind: str, info: dict, cur: Any):
         p = info["p"]
         v = pick([12345, "x", b"\x01", -1, [1]])
         return v, "nonsettable-given:" + p["pk"]
+    if kind == "tablekey":
+        rows = [r["name"] for r in info["tk"]["table"]["rows"]]
+        others = [r for r in rows if r != info["chosen"]]
+        opts = [("tablekey-unknown-row", "no_such_row"), ("tablekey-wrong-type:int", 1), ("tablekey-wrong-type:bytes", b"r"),
+                ("tablekey-wrong-type:list", [info["chosen"]])]
+        opts += [("tablekey-conflict", r) for r in others] * 3
+        lab, v = pick(opts)
+        return v, lab
+    if kind == "tstruct":
+        rows = [r["name"] for r in info["tk"]["table"]["rows"]]
+        row, content = (cur[0], cur[1]) if isinstance(cur, (list, tuple)) and len(cur) == 2 else (rows[0], {})
+        opts = [("tstruct-unknown-row", ["no_such_row", content]), ("tstruct-not-a-pair:int", 5), ("tstruct-arity-1", [row]),
+                ("tstruct-arity-3", [row, content, 1]), ("tstruct-row-not-str:int", [1, content]),
+                ("tstruct-row-not-str:None", [None, content]), ("tstruct-not-a-pair:dict", {row: content}),
+                ("tstruct-not-a-pair:str", row)]
+        lab, v = pick(opts)
+        return v, lab
     if kind == "sfield":
         cur_l = list(cur) if isinstance(cur, list) else []
         opts = [("sfield-too-few", cur_l[:-1]), ("sfield-too-many", cur_l + cur_l[:1]), ("sfield-not-a-list:dict", {"a": 1}),
